@@ -30,6 +30,8 @@ def run(ctx):
     ctx.each(r13e, ctx, repo, T)
     ctx.each(c11.r11e, ctx, repo, "R13f")
     ctx.each(c16.r16a, ctx, repo, T)
+    ctx.each(c16.r16b, ctx, repo, T)  # programs target (parameter, population) pairs: the pair is looked up in that order
+    ctx.each(c16.r16k, ctx, repo, T)
     ctx.each(r13h, ctx, repo)
     ctx.each(c11.r11d, ctx, repo)  # the coverage that sets the parameter is per time step: overwrites are converted before they are capped
     ctx.each(c11.r11a, ctx, repo)
